@@ -98,13 +98,13 @@ func liveCase(prop, engine string, weight int, o storeworld.LiveOpts) Case {
 
 // Cases lists every (property, engine) pair.
 var Cases = []Case{
-	seqCase("C02", "dbworld-seq", 1, dbworld.Profile{MaxOps: 40, MaxNames: 3,
+	seqCase("C02", "dbworld-seq", 1, dbworld.Profile{DiskFaults: true, MaxOps: 40, MaxNames: 3,
 		Oracles: orc("result", "list", "state", "open")}),
 	seqCase("C01", "dbworld-acl", 1, dbworld.Profile{Restricted: 3, HTTPMode: 1, RuleChanges: true, AuditFaults: true, MaxOps: 60, MaxNames: 4,
 		Oracles: orc("denied", "denied-identical", "result", "list", "state", "open")}),
-	seqCase("C03", "dbworld-restart", 1, dbworld.Profile{RestartMode: 1, Golden: true, LaxModes: true, MaxOps: 30, MaxNames: 3,
+	seqCase("C03", "dbworld-restart", 1, dbworld.Profile{RestartMode: 1, Golden: true, LaxModes: true, DiskFaults: true, MaxOps: 30, MaxNames: 3,
 		Oracles: orc("result", "list", "state", "restart", "open-modifies", "golden", "open")}),
-	seqCase("C09", "dbworld-cond", 1, dbworld.Profile{HTTPMode: 1, Restricted: 1, RestartMode: 1, CondHeavy: true, FileClient: true, MaxOps: 40, MaxNames: 2,
+	seqCase("C09", "dbworld-cond", 1, dbworld.Profile{HTTPMode: 1, Restricted: 1, RestartMode: 1, CondHeavy: true, FileClient: true, DiskFaults: true, MaxOps: 40, MaxNames: 2,
 		Oracles: orc("result", "state", "denied", "open", "fileclient")}),
 	seqCase("C06", "dbworld-audit", 3, dbworld.Profile{Restricted: 2, HTTPMode: 1, AuditFaults: true, MaxOps: 30, MaxNames: 3,
 		Oracles: orc("audit", "audit-quiet", "audit-order", "audit-failclosed", "open")}),
